@@ -14,6 +14,7 @@ import H263V.Lemmas.VlcTables
 import H263V.Thm.C11
 import H263V.Lemmas.SorensonPicture
 import H263V.Lemmas.BasePicture
+import H263V.Lemmas.PlusPicture
 namespace H263V.Thm.C02
 open H263V H263V.Gather H263V.Spec.Vlc
 
@@ -72,6 +73,24 @@ theorem picture_round_trip_baseline (s : State) (hs : s.opts = { sorenson := fal
       semCore s (Spec.HeaderSpec.basePicture p.hdr) p.mbs >>= fun r => .ok (commitPic s r.1 r.2, ⟨rest, pos + p.bits.length⟩) :=
   decode_bpic s hs hr p w h hv hprev rest pos
 
+open H263V.State H263V.Lemmas.PlusPicture H263V.Lemmas.PictureRoundTrip in
+/-- The same for H.263v2 pictures with a PLUSPTYPE header (both UFEP codes, custom picture formats, custom clock, scalability
+negotiated or not, in ANY decoder state in standard mode): I and P pictures whose options in force keep the macroblock layer in the
+plain syntax (no modified quantization, which the decoder rejects; no PLUSPTYPE unrestricted-MV coding of differentials — with
+UFEP = 001 these are the header's own MQ and UMV bits: `plusptype_plain_syntax`).  All other announced modes are parsed and
+recorded but, as in the code, do not alter the reconstruction. -/
+theorem picture_round_trip_plusptype (s : State) (hs : s.opts.sorenson = false) (p : PPic) (w h : Nat) (hv : p.Valid s w h)
+    (rest : Bits) (pos : Nat) :
+    decodeNextPicture s ⟨p.bits s ++ rest, pos⟩ =
+      semCore s (p.picture s) p.mbs >>= fun r => .ok (commitPic s r.1 r.2, ⟨rest, pos + (p.bits s).length⟩) :=
+  decode_ppic s hs p w h hv rest pos
+
+open H263V.State H263V.Lemmas.PlusPicture in
+theorem plusptype_plain_syntax (s : State) (p : PPic) (hu : p.hdr.ufep = true) :
+    Opt.has (nextRunning (p.picture s) s.running) Opt.MODIFIED_QUANTIZATION = p.hdr.mq ∧
+    Opt.has (nextRunning (p.picture s) s.running) Opt.UNRESTRICTED_MOTION_VECTORS = p.hdr.umv :=
+  plain_of_ufep s p hu
+
 open H263V.State H263V.Lemmas.SorensonPicture H263V.Lemmas.PictureRoundTrip in
 /-- The decoded picture reports the header it was decoded from and the format that header signals; its planes have the
 signalled sizes (`planes_sized`). -/
@@ -116,5 +135,31 @@ example : (⟨{ version := 1, tr := 7, sizeCode := 0, customW := 16, customH := 
   rcases this with e | e | e | e | e | e <;> subst e <;>
     refine ⟨⟨_, rfl, by decide, by decide, by decide⟩, ?_⟩ <;>
     simp only [blk, List.getD_cons_zero, List.getD_cons_succ, EventsOK, EventOK, v1] <;> decide
+
+open H263V.State H263V.Lemmas.PlusPicture H263V.Lemmas.PictureRoundTrip H263V.Lemmas.RoundTrip H263V.Spec.Syntax in
+/-- non-vacuity: a fresh standard-mode decoder and a 16x16 custom-format PLUSPTYPE intra picture (custom clock, advanced
+prediction and deblocking-filter bits set, CPM) of one INTRA macroblock meet `PPic.Valid` -/
+example : (⟨{ tr := 9, ufep := true, srcFmt := 6, customPcf := true, ap := true, df := true, picType := 0, rtype := true, cpm := some 2, par := 2, pwi := 3, phi := 4, cpcfc := 30, etr := 1, quant := 7, extra := [5] },
+    [⟨0, .coded .intra 0 (0, 0) ((0, 0), (0, 0), (0, 0))
+      [{ dc := some 100, events := [⟨0, 3, .short⟩, ⟨2, -50, .esc8⟩] }, { dc := some 255 }, { dc := some 1 },
+       { dc := some 127 }, { dc := some 129 }, { dc := some 200 }]⟩]⟩ : PPic).Valid
+    (State.new { sorenson := false, scalability := false }) 16 16 := by
+  refine ⟨⟨by decide, by decide, by decide, ⟨rfl, rfl, rfl, rfl, rfl, rfl⟩, rfl, ?_, ?_, by decide, by decide, by decide, ?_,
+    by decide, by decide, by decide, by decide, rfl⟩, by decide, ?_, ?_, rfl, rfl, ?_⟩
+  · intro q hq; cases hq; decide
+  · intro _ _; exact ⟨by decide, by decide, by decide, fun h => by simp at h⟩
+  · intro v hv; cases hv
+  · rw [(plain_of_ufep _ _ rfl).1]
+  · rw [(plain_of_ufep _ _ rfl).2]
+  · intro m hm
+    simp only [List.mem_singleton] at hm
+    subst hm
+    refine ⟨by decide, fun h => by simp [MbType.hasQuantizer] at h, fun h => by simp [MbType.isInter] at h,
+      fun h => by simp [MbType.hasFourVec] at h, ?_⟩
+    intro i hi
+    have : i = 0 ∨ i = 1 ∨ i = 2 ∨ i = 3 ∨ i = 4 ∨ i = 5 := by omega
+    rcases this with e | e | e | e | e | e <;> subst e <;>
+      refine ⟨⟨_, rfl, by decide, by decide, by decide⟩, ?_⟩ <;>
+      simp only [blk, List.getD_cons_zero, List.getD_cons_succ, EventsOK, EventOK, v1] <;> decide
 
 end H263V.Thm.C02
